@@ -20,12 +20,15 @@ Proof. vm_compute. reflexivity. Qed.
 Lemma success_ok : forallb (fun c => negb (valid_cfg c) || forallb (check_ok c) kinds) all_cfgs = true.
 Proof. vm_compute. reflexivity. Qed.
 
+Lemma sem_ok_app l1 l2 : sem_ok l1 = true -> sem_ok l2 = true -> sem_ok (l1 ++ l2) = true.
+Proof. unfold sem_ok. intros H1 H2. rewrite forallb_app, H1, H2. reflexivity. Qed.
+
 Lemma sem_all : sem_ok all_cfgs = true.
 Proof.
-  rewrite slices_cover. unfold sem_ok. rewrite !forallb_app.
-  pose proof chk_sem_0 as H0. pose proof chk_sem_1 as H1. pose proof chk_sem_2 as H2. pose proof chk_sem_3 as H3.
-  pose proof chk_sem_4 as H4. pose proof chk_sem_5 as H5. pose proof chk_sem_6 as H6. pose proof chk_sem_7 as H7.
-  unfold sem_ok in *. rewrite H0, H1, H2, H3, H4, H5, H6, H7. reflexivity.
+  rewrite slices_cover.
+  apply sem_ok_app; [exact chk_sem_0|]. apply sem_ok_app; [exact chk_sem_1|]. apply sem_ok_app; [exact chk_sem_2|].
+  apply sem_ok_app; [exact chk_sem_3|]. apply sem_ok_app; [exact chk_sem_4|]. apply sem_ok_app; [exact chk_sem_5|].
+  apply sem_ok_app; [exact chk_sem_6|exact chk_sem_7].
 Qed.
 
 Lemma check_sem_true c k : In c all_cfgs -> In k kinds -> check_sem c k = true.
@@ -50,7 +53,7 @@ Qed.
 
 Lemma parse_in listified b c keep : parse_basis_gen listified b = Ok (c, keep) -> In c all_cfgs.
 Proof.
-  destruct b as [s|l]; simpl.
+  destruct b as [s|l]; cbn [parse_basis_gen].
   - destruct (mem s basis_2q_valid); [|discriminate]. intros H. injection H as <- _. apply mkcfg_in.
   - destruct (Nat.eqb (length (filter _ l)) 1); [discriminate|]. intros H. injection H as <- _. apply mkcfg_in.
 Qed.
@@ -241,22 +244,22 @@ Qed.
 (* what `gate.name in basis` means for the two forms of the basis argument *)
 Lemma keep_str s c keep : parse_basis (BStr s) = Ok (c, keep) -> forall n, keep n = String.eqb n s.
 Proof.
-  unfold parse_basis. rewrite listified_fixed. simpl. destruct (mem s basis_2q_valid); [|discriminate].
-  intros H n. injection H as _ <-. simpl. rewrite orb_false_r. reflexivity.
+  unfold parse_basis. rewrite listified_fixed. cbn [parse_basis_gen]. destruct (mem s basis_2q_valid); [|discriminate].
+  intros H n. injection H as _ <-. unfold mem. cbn [existsb]. rewrite orb_false_r. reflexivity.
 Qed.
 Lemma keep_list l c keep : parse_basis (BList l) = Ok (c, keep) -> forall n, keep n = mem n l.
 Proof.
-  unfold parse_basis. simpl. destruct (Nat.eqb (length (filter _ l)) 1); [discriminate|].
+  unfold parse_basis. cbn [parse_basis_gen]. destruct (Nat.eqb (length (filter _ l)) 1); [discriminate|].
   intros H n. injection H as _ <-. reflexivity.
 Qed.
 
 (* invalid basis specifications are refused *)
 Theorem resolve_invalid_string_proof s circ : mem s basis_2q_valid = false -> resolve (BStr s) circ = Error.
-Proof. intros H. rewrite resolve_unfold. unfold parse_basis. simpl. rewrite H. reflexivity. Qed.
+Proof. intros H. rewrite resolve_unfold. unfold parse_basis. cbn [parse_basis_gen]. rewrite H. reflexivity. Qed.
 
 Theorem resolve_one_rotation_proof l circ :
   length (filter (fun g => negb (mem g basis_2q_valid) && mem g basis_1q_valid) l) = 1 -> resolve (BList l) circ = Error.
-Proof. intros H. rewrite resolve_unfold. unfold parse_basis. simpl. rewrite H. reflexivity. Qed.
+Proof. intros H. rewrite resolve_unfold. unfold parse_basis. cbn [parse_basis_gen]. rewrite H. reflexivity. Qed.
 
 Theorem resolve_rejects_measurement_proof b ops : In OpMeasure ops -> resolve_ops b ops = Error.
 Proof.
